@@ -83,7 +83,7 @@ static Img ref_morph(Img const& a, int w, int h, SE const& s, bool dil)
     Img r(a.size()); int c = s.n / 2;
     for (int y = 0; y < h; ++y) for (int x = 0; x < w; ++x)
     {
-        int acc = dil ? -1 : 1 << 30;
+        int acc = dil ? -(1 << 30) : 1 << 30;
         for (int dy = -c; dy <= c; ++dy) for (int dx = -c; dx <= c; ++dx)
         {
             if (!s.at(dx, dy)) continue;
@@ -97,7 +97,11 @@ static Img ref_morph(Img const& a, int w, int h, SE const& s, bool dil)
     return r;
 }
 static bool leq(Img const& a, Img const& b) { for (size_t i = 0; i < a.size(); ++i) if (a[i] > b[i]) return false; return true; }
-static std::string show(Img const& a) { vh::S s; for (size_t i = 0; i < a.size(); ++i) s << a[i]; return s; }
+static std::string show(Img const& a)
+{
+    bool wide = false; for (int v : a) if (v < 0 || v > 9) wide = true;
+    vh::S s; for (size_t i = 0; i < a.size(); ++i) { if (wide && i) s << ","; s << a[i]; } return s;
+}
 
 enum Op { DIL1, DIL2, ERO1, ERO2, OPEN, CLOSE, NOPS };
 static const char* OP_NAME[NOPS] = {"dilate1", "dilate2", "erode1", "erode2", "opening", "closing"};
@@ -107,12 +111,25 @@ struct Morph
     vh::Ctx& ctx;
     long fails_here = 0;
 
-    // run one GIL operation on a gray8 image held in guarded buffers; returns the result
+    // channel kind of the images: 0 gray8 over {0..V-1}; 1 gray8s over {-4,0,3}; 2 gray16s over {-300,0,7}; 3 gray16 over {0,1,300}
+    int kind = 0;
+    int val(int digit) const
+    {
+        static const int m1[] = {-4, 0, 3, -128, 127}, m2[] = {-300, 0, 7, -32768, 32767}, m3[] = {0, 1, 300, 65535, 2};
+        return kind == 0 ? digit : kind == 1 ? m1[digit] : kind == 2 ? m2[digit] : m3[digit];
+    }
+    // run one GIL operation on an image held in guarded buffers; returns the result
     Img gil_op(int op, Img const& a, int w, int h, gil::detail::kernel_2d<float> const& k, std::string const& id)
     {
-        Buf<gil::gray8_pixel_t> src(w, h), dst(w, h, 0xA5);
+        return kind == 0 ? gil_op_t<gil::gray8_pixel_t>(op, a, w, h, k, id) : kind == 1 ? gil_op_t<gil::gray8s_pixel_t>(op, a, w, h, k, id)
+             : kind == 2 ? gil_op_t<gil::gray16s_pixel_t>(op, a, w, h, k, id) : gil_op_t<gil::gray16_pixel_t>(op, a, w, h, k, id);
+    }
+    template <class Px> Img gil_op_t(int op, Img const& a, int w, int h, gil::detail::kernel_2d<float> const& k, std::string const& id)
+    {
+        using ch_t = typename gil::channel_type<Px>::type;
+        Buf<Px> src(w, h), dst(w, h, 0xA5);
         auto swv = src.view(); auto dv = dst.view();
-        for (int i = 0; i < w * h; ++i) swv(i % w, i / w)[0] = uint8_t(a[size_t(i)]);
+        for (int i = 0; i < w * h; ++i) swv(i % w, i / w)[0] = ch_t(a[size_t(i)]);
         auto sv = src.cview();
         switch (op)
         {
@@ -125,7 +142,7 @@ struct Morph
         }
         ++ctx.evaluations;
         Img r(a.size());
-        for (int i = 0; i < w * h; ++i) r[size_t(i)] = dv(i % w, i / w)[0];
+        for (int i = 0; i < w * h; ++i) r[size_t(i)] = int(dv(i % w, i / w)[0]);
         if (!dst.g.intact()) { ++fails_here; ctx.fail(id, "write-outside-destination"); }
         if (!src.g.intact()) { ++fails_here; ctx.fail(id, "write-into-source-surroundings"); }
         if (ctx.san_take(id)) ++fails_here;
@@ -137,14 +154,15 @@ struct Morph
     {
         const int cells = w * h;
         long total = 1; for (int i = 0; i < cells; ++i) total *= V;
-        std::string ubase = vh::S() << "morph/" << w << "x" << h << "/v" << V << "/" << s.name;
+        static const char* KN[] = {"", "gray8s/", "gray16s/", "gray16/"};
+        std::string ubase = vh::S() << "morph/" << KN[kind] << w << "x" << h << "/v" << V << "/" << s.name;
         ctx.cur = ubase; fails_here = 0;
         auto k = to_kernel(s);
         std::vector<Img> dils, eros, srcs;
         for (long idx = 0; idx < total && fails_here < 64; ++idx)
         {
             Img a(size_t(cells), 0); long q = idx; bool flat = true;
-            for (int i = 0; i < cells; ++i) { a[size_t(i)] = int(q % V); q /= V; if (a[size_t(i)] != a[0]) flat = false; }
+            for (int i = 0; i < cells; ++i) { a[size_t(i)] = val(int(q % V)); q /= V; if (a[size_t(i)] != a[0]) flat = false; }
             std::string ibase = ubase + "/" + (cells ? show(a) : std::string("empty"));
             Img res[NOPS];
             for (int op = 0; op < NOPS; ++op) res[op] = gil_op(op, a, w, h, k, ibase + "/" + OP_NAME[op]);
@@ -208,6 +226,27 @@ VH_GROUP(morph)
         {
             if (w * h <= PB) { if (ctx.take()) m.unit(w, h, 2, s, w * h <= PM); }      // all binary images
             if (w * h <= PT && w * h > 1) { if (ctx.take()) m.unit(w, h, 3, s, false); } // all images over {0,1,2}
+            if (ctx.timed_out()) return;
+        }
+    }
+}
+
+// signed and 16-bit channels: every image over a 3-value alphabet that contains negative values, 0 and positive values
+// (signed: the range minimum is not 0), up to PS cells, every symmetric 3x3 element and the four named 5x5 ones
+VH_GROUP(morph_signed)
+{
+    vh::ubsan_counts() = false;
+    const int PS = int(ctx.B("PS", 6)), VS = int(ctx.B("VS", 3));
+    const std::vector<SE> ses = se_list(false);
+    for (int kind = 1; kind <= 3; ++kind)
+    {
+        Morph m{ctx}; m.kind = kind;
+        for (SE const& s : ses) for (int h = 1; h <= 4; ++h) for (int w = 1; w <= 4; ++w)
+        {
+            if (w * h > PS) continue;
+            if (!ctx.take()) continue;
+            m.unit(w, h, VS, s, w * h <= 4);
+            ++ctx.witness[kind == 1 ? "morph_gray8s" : kind == 2 ? "morph_gray16s" : "morph_gray16"];
             if (ctx.timed_out()) return;
         }
     }
